@@ -1,7 +1,7 @@
 """Property -> job sets, attribution rules, bounds."""
 
-CODEC_FAMS_Q = ['scalar', 'list', 'map', 'default', 'nocopy', 'unknown', 'ids', 'nest', 'threshold']
-CODEC_FAMS_T = ['scalar', 'list', 'map', 'default', 'nocopy', 'unknown', 'ids', 'nest', 'threshold_full']
+CODEC_FAMS_Q = ['scalar', 'list', 'map', 'default', 'nocopy', 'unknown', 'ids', 'nest', 'threshold', 'twin']
+CODEC_FAMS_T = ['scalar', 'list', 'map', 'default', 'nocopy', 'unknown', 'ids', 'nest', 'threshold_full', 'twin']
 
 JOBSETS = {
     'codec': {
@@ -46,7 +46,7 @@ JOBSETS['dec2'] = {
 
 JOBSETS['hist'] = {
     'gen': {'families': {'quick': ['hist'], 'thorough': ['hist']}, 'bounds': {'quick': '1,1,1,2', 'thorough': '2,2,2,2'}},
-    'kinds': ['hist'],
+    'kinds': ['hist', 'decmsg'],
     'cfg': {'quick': {'timeout_s': 600, 'solver_timeout_ms': 10000}, 'thorough': {'timeout_s': 3000, 'solver_timeout_ms': 60000}},
     'wall': {'quick': 1500, 'thorough': 7200},
 }
@@ -64,16 +64,23 @@ JOBSETS['invalid'] = {
     'wall': {'quick': 1200, 'thorough': 3600},
 }
 
+JOBSETS['mutmsg'] = {
+    'gen': {'families': {'quick': ['mutmsg'], 'thorough': ['mutmsg_full']}, 'bounds': {'quick': '1,1,1,2', 'thorough': '1,1,1,2'}},
+    'kinds': ['mutmsg'],
+    'cfg': {'quick': {'timeout_s': 400, 'solver_timeout_ms': 20000}, 'thorough': {'timeout_s': 3000, 'solver_timeout_ms': 60000}},
+    'wall': {'quick': 1800, 'thorough': 9000},
+}
+
 PROPS = {
     'C13': {'jobsets': ['invalid'], 'phases': [''], 'translator_validation': 4},
-    'C07': {'jobsets': ['hist', 'dec2'], 'phases': ['pred', 'decode'], 'also_labels': r'^(C03|C09|C05|C06|C01)', 'job_filter': r'^(hist|dec2)/'},
+    'C07': {'jobsets': ['hist', 'dec2'], 'phases': ['pred', 'decode'], 'also_labels': r'^(C03|C09|C05|C06|C01)', 'job_filter': r'^(hist|dec2|decmsg)/'},
     'C06': {'jobsets': ['unit', 'dec2', 'decmsg', 'codec'], 'phases': [], 'job_filter': r'unit/(span|decoder)|^decmsg/|^dec2/|^codec/', 'also_labels': r'^M-(scan|align)'},
     'C01': {'jobsets': ['codec'], 'phases': ['decode']},
     'C02': {'jobsets': ['codec'], 'phases': []},
     'C03': {'jobsets': ['decmsg', 'bytes'], 'phases': ['decode'], 'job_filter': r'^(decmsg|bytes)/'},
     'C04': {'jobsets': ['codec'], 'phases': ['encode']},
-    'C05': {'jobsets': ['bytes'], 'phases': ['decode']},
-    'C09': {'jobsets': ['decmsg', 'bytes', 'codec'], 'phases': [], 'job_filter': r'Rq|By_unk|ScA_|ScD_|Id(Lo|Mid|Hi)',
+    'C05': {'jobsets': ['bytes', 'mutmsg'], 'phases': ['decode']},
+    'C09': {'jobsets': ['decmsg', 'hist', 'bytes', 'codec'], 'phases': [], 'job_filter': r'Rq|Hs|By_unk|ScA_|ScD_|Id(Lo|Mid|Hi)',
             'also_labels': r'^(C03 a well-formed|C03 every transmitted|C05 DecodeObject succeeds|C02 bytes equal)'},
     'C10': {'jobsets': ['codec', 'decmsg'], 'phases': [], 'job_filter': r'Df|ScD_|LeafD|NsB',
             'also_labels': r'^(C01 round trip|C02 bytes equal|C04 EncodedSize|C03 every transmitted)'},
